@@ -240,33 +240,33 @@ func checkDefs() map[string]CheckDef {
 	add(CheckDef{
 		ID: "C07",
 		Obligations: []Obligation{
-			{Pkg: "internal/verifh/c07", Harness: "VerifC07Update", Quick: map[string]int{"maxLocked": 1, "phases": 2}, Thor: map[string]int{"maxLocked": 2, "phases": 4}, TV: 10},
+			{Pkg: "internal/verifh/c07", Harness: "VerifC07Update", Quick: map[string]int{"maxLocked": 1, "phases": 2}, TV: 10},
 			{Pkg: "internal/verifh/c07", Harness: "VerifC07SubFunding", TV: 10},
 			{Pkg: "internal/verifh/c07", Harness: "VerifC07SubSettlement", TV: 10},
 			{Pkg: "internal/verifh/c07", Harness: "VerifC07SubFinal", TV: 6, Note: "settlement interceptor installed by the real acceptUpdate of the peer's final sub-channel update"},
-			{Pkg: "internal/verifh/c12", Harness: "VerifVirtualFunding", Quick: map[string]int{"devmask": 6951}, Thor: map[string]int{"devmask": -1}, TV: 1, Note: "quick: deviations 0,1,2,5,8,9,11,12 (the others run in C12's quick tier); thorough: all"},
-			{Pkg: "internal/verifh/c12", Harness: "VerifVirtualSettlement", Quick: map[string]int{"bKinds": 2, "devmask": 435}, Thor: map[string]int{"bKinds": 3, "devmask": -1}, TV: 1, Note: "quick: deviations 0,1,4,5,7,8; thorough: all"},
+			{Pkg: "internal/verifh/c12", Harness: "VerifVirtualFunding", Quick: map[string]int{"devmask": 6951}, TV: 1, Note: "quick: deviations 0,1,2,5,8,9,11,12 (the others run in C12's quick tier); thorough: all"},
+			{Pkg: "internal/verifh/c12", Harness: "VerifVirtualSettlement", Quick: map[string]int{"bKinds": 2, "devmask": 435}, TV: 1, Note: "quick: deviations 0,1,4,5,7,8; thorough: all"},
 		},
 		Assumptions: append(append([]string{}, clientAssume...),
 			"the independent acceptability predicates are written from the property text in the harness (c07.go acceptable/successor, sub.go, c12/virtual.go fundingRef/settlementRef); the wire-level sender is not part of them (the property identifies the sender by the signature)",
 			"the user's update handler accepts or rejects nondeterministically; 'countersigned' is observed as a ChannelUpdateAcc on the bus carrying the client's signature"),
-		BoundsText: "ordinary updates: channel in phase Acting/Final (thorough: +Registered/Funding) with symbolic balances, version and 0..1 (2) locked sub-allocations with empty/[0,1]/[1,0] index maps; candidate = arbitrary balances + one of 12 structural deviations (version, id, final flag, locked amount / index map / identity edited, sub-allocation removed / added / reordered, other asset, balance column more/fewer); signature = peer over candidate / over a state differing in one balance / over the current state / stranger over candidate / garbage; actor index arbitrary 16 bit; sub-channel funding and settlement interceptors: registered as completeCPP / acceptUpdate do (funding optionally after an intermediate accepted payment on the parent; settlement also through the real acceptUpdate of the peer's final sub-channel update with an arbitrary outcome), candidate with arbitrary debits/credits and 7 / 6 deviations of the locked list; virtual channel funding (14 deviations) and settlement (11 deviations) proposals sent by one party with the other party's matching, different or missing proposal, both arrival orders",
+		BoundsText: "ordinary updates: channel in phase Acting/Final  with symbolic balances, version and 0..1 (2) locked sub-allocations with empty/[0,1]/[1,0] index maps; candidate = arbitrary balances + one of 12 structural deviations (version, id, final flag, locked amount / index map / identity edited, sub-allocation removed / added / reordered, other asset, balance column more/fewer); signature = peer over candidate / over a state differing in one balance / over the current state / stranger over candidate / garbage; actor index arbitrary 16 bit; sub-channel funding and settlement interceptors: registered as completeCPP / acceptUpdate do (funding optionally after an intermediate accepted payment on the parent; settlement also through the real acceptUpdate of the peer's final sub-channel update with an arbitrary outcome), candidate with arbitrary debits/credits and 7 / 6 deviations of the locked list; virtual channel funding (14 deviations) and settlement (11 deviations) proposals sent by one party with the other party's matching, different or missing proposal, both arrival orders",
 		Outside:    []string{"apps with their own transition rules (covered at machine level by C02)", "more than two participants / one asset", "preemptive schedules inside the handlers"},
 	})
 	add(CheckDef{
 		ID: "C12",
 		Obligations: []Obligation{
-			{Pkg: "internal/verifh/c12", Harness: "VerifC12Sync", Quick: map[string]int{"phases": 2}, Thor: map[string]int{"phases": 5}, TV: 10},
-			{Pkg: "internal/verifh/c12", Harness: "VerifC12Update", Quick: map[string]int{"phases": 2}, Thor: map[string]int{"phases": 5}, TV: 10},
+			{Pkg: "internal/verifh/c12", Harness: "VerifC12Sync", Quick: map[string]int{"phases": 2}, TV: 10},
+			{Pkg: "internal/verifh/c12", Harness: "VerifC12Update", Quick: map[string]int{"phases": 2}, TV: 10},
 			{Pkg: "internal/verifh/c08", Harness: "VerifC08Validation", TV: 6, Note: "proposal messages: no panic, parent channel not left locked"},
-			{Pkg: "internal/verifh/c12", Harness: "VerifVirtualFunding", Quick: map[string]int{"devmask": 9437}, Thor: map[string]int{"devmask": -1}, TV: 1, Note: "quick: deviations 0,2,3,4,6,7,10,13 (the others run in C07's quick tier); thorough: all"},
-			{Pkg: "internal/verifh/c12", Harness: "VerifVirtualSettlement", Quick: map[string]int{"bKinds": 2, "devmask": 3661}, Thor: map[string]int{"bKinds": 3, "devmask": -1}, TV: 1, Note: "quick: deviations 0,2,3,6,9,10,11; thorough: all"},
+			{Pkg: "internal/verifh/c12", Harness: "VerifVirtualFunding", Quick: map[string]int{"devmask": 9437}, TV: 1, Note: "quick: deviations 0,2,3,4,6,7,10,13 (the others run in C07's quick tier); thorough: all"},
+			{Pkg: "internal/verifh/c12", Harness: "VerifVirtualSettlement", Quick: map[string]int{"bKinds": 2, "devmask": 3661}, TV: 1, Note: "quick: deviations 0,2,3,6,9,10,11; thorough: all"},
 		},
 		Assumptions: append(append([]string{}, clientAssume...),
 			"'decodes successfully' is modelled by building message values directly within what the decoders can deliver (C13/C14 cover the decoders): states that fail State.Valid are only sent with garbage signatures; parameters have at least two participants; no nil sub-messages",
 			"'still completes or refuses honest requests in bounded time' is checked as: after all handler goroutines are quiescent (all virtual-time timeouts fired) every channel's machine mutex is free, at most one response per request was sent, no goroutine of the client is blocked forever on the responder's done channel, and the phase is one an honest request can proceed from",
 			"an unrecovered panic in any goroutine is a violation (natively: the test binary dies with 'panic:')"),
-		BoundsText: "sync messages (4 shapes incl. the decodable empty transaction), update messages (9 deviations x 4 signature kinds x arbitrary actor index, from the peer or a stranger), all proposal kinds with 24 deviations (shared with C08), virtual channel funding (14 deviations) and settlement (11 deviations) proposals incl. more/fewer signatures than participants, index maps of wrong length or with entries out of range, unallocated or already allocated channels, with/without the second party's proposal in both arrival orders and with timeouts; channel in phases Acting/Signing (thorough: +Final/Registered/Funding)",
+		BoundsText: "sync messages (4 shapes incl. the decodable empty transaction), update messages (9 deviations x 4 signature kinds x arbitrary actor index, from the peer or a stranger), all proposal kinds with 24 deviations (shared with C08), virtual channel funding (14 deviations) and settlement (11 deviations) proposals incl. more/fewer signatures than participants, index maps of wrong length or with entries out of range, unallocated or already allocated channels, with/without the second party's proposal in both arrival orders and with timeouts; channel in phases Acting/Signing ",
 		Outside:    []string{"sequences of more than two adversarial messages per run (each handler is checked from an arbitrary channel state instead)", "proposal responses and update responses arriving outside a protocol run (they are consumed by wire receivers created per request; not encoded)", "preemptive schedules inside the handlers"},
 	})
 	add(CheckDef{
